@@ -37,6 +37,17 @@ def _mentions_mask(node, var=None):
     return False
 
 
+def _uncopy(e):
+    """dict(x) / x.copy() / {**x}: the mapping whose content is copied"""
+    if isinstance(e, ast.Call) and call_name(e) == "dict" and len(e.args) == 1 and not e.keywords:
+        return e.args[0]
+    if isinstance(e, ast.Call) and isinstance(e.func, ast.Attribute) and e.func.attr == "copy" and not e.args:
+        return e.func.value
+    if isinstance(e, ast.Dict) and len(e.keys) == 1 and e.keys[0] is None:
+        return e.values[0]
+    return e
+
+
 def check(ctx):
     ctx.not_decided += ["actual thread interleavings", "user code mutating the overlay dict it handed in"]
     ctx.rule("R1", "Env.swap captures each key before setting it, writes only thread-locally, and restores every captured key and the overlay in a finally that every exit passes", floor=8)
@@ -277,11 +288,12 @@ def check(ctx):
                 tgt = [t for t in n.targets if isinstance(t, ast.Attribute)][0]
                 if isinstance(n.value, ast.Constant):
                     continue
-                lv = df.leaves(defs, n.value)
+                nval = _uncopy(n.value)
+                lv = df.leaves(defs, nval)
                 # in-place growth of a local dict from items of a tainted dict
                 tainted = any(t == ("attr", "self._d") for t in lv)
-                if isinstance(n.value, ast.Name):
-                    vname = n.value.id
+                if isinstance(nval, ast.Name):
+                    vname = nval.id
                     for s in walk_local(fn):
                         if isinstance(s, ast.Assign) and isinstance(s.targets[0], ast.Subscript) and unparse(s.targets[0].value) == vname:
                             loop = next((a for a in ancestors(s) if isinstance(a, ast.For)), None)
@@ -304,7 +316,7 @@ def check(ctx):
         # and the shared cache is handed out only under the same condition
     dcfg = CFG(dt)
     for n in dcfg.nodes:
-        if n.kind == "stmt" and isinstance(n.ast, ast.Return) and unparse(n.ast.value) == "self._detyped":
+        if n.kind == "stmt" and isinstance(n.ast, ast.Return) and n.ast.value is not None and unparse(_uncopy(n.ast.value)) == "self._detyped":
             fa = facts_at(dcfg, n)
             facts = facts_text(fa)
             guarded = any((not pol) and unparse(e) in NO_OVERRIDES for e, pol in fa)
